@@ -69,10 +69,16 @@ func projectLines(text string) []fLine {
 	return res
 }
 
-func concretiseLines(ls []fLine) string {
+func concretiseLines(ls []fLine) string { return concretiseLinesInd(ls, false) }
+
+// odd: marker lines are indented by an odd number of blanks (same abstract file: indentation is layout)
+func concretiseLinesInd(ls []fLine, odd bool) string {
 	var b strings.Builder
 	for _, l := range ls {
 		ind := strings.Repeat("  ", l.Ind)
+		if odd && l.Ind >= 1 && (l.K == "open" || l.K == "inl") {
+			ind += " "
+		}
 		switch l.K {
 		case "blank":
 			b.WriteString("\n")
@@ -204,33 +210,49 @@ func checkC03(e *Env, r *Report) {
 			if fi >= len(files)-nRand && (fi+len(c.Dist)+c.ABI)%3 != 0 {
 				continue // random files: a third of the configurations each
 			}
-			out, err := runDirectives(c, text)
-			nReplay++
-			var outL []fLine
-			if err != nil {
-				outL = []fLine{{K: "line", Key: "ERROR " + err.Error(), FS: []string{}}}
-			} else {
-				outL = unkey(projectLines(out))
-			}
-			ob, _ := json.Marshal(outL)
-			// the expected outcome only depends on which of the file's filter tokens name the
-			// target: de-duplicate on (source, output, matching tokens)
-			match := []string{}
-			toks := map[string]bool{c.Dist: true, FamilyOf(c.Dist): true, fmt.Sprintf("abi%d", c.ABI): true, "apparmor" + c.Ver: true}
-			for _, l := range src {
-				for _, t := range l.FS {
-					if toks[t] {
-						match = append(match, t)
+			for variant := 0; variant < 2; variant++ {
+				vtext := text
+				if variant == 1 {
+					if fi >= len(files)-nRand {
+						break // odd indentation: for the enumerated files
+					}
+					vtext = concretiseLinesInd(f, true)
+					if vtext == text {
+						break
 					}
 				}
+				out, err := runDirectives(c, vtext)
+				nReplay++
+				var outL []fLine
+				if err != nil {
+					outL = []fLine{{K: "line", Key: "ERROR " + err.Error(), FS: []string{}}}
+				} else {
+					outL = unkey(projectLines(out))
+				}
+				ob, _ := json.Marshal(outL)
+				// the expected outcome only depends on which of the file's filter tokens name the
+				// target: de-duplicate on (source, output, matching tokens)
+				match := []string{}
+				toks := map[string]bool{c.Dist: true, FamilyOf(c.Dist): true, fmt.Sprintf("abi%d", c.ABI): true, "apparmor" + c.Ver: true}
+				for _, l := range src {
+					for _, t := range l.FS {
+						if toks[t] {
+							match = append(match, t)
+						}
+					}
+				}
+				sort.Strings(match)
+				k := string(sb) + "|" + string(ob) + "|" + strings.Join(match, ",")
+				if seen[k] {
+					continue
+				}
+				seen[k] = true
+				vid := ""
+				if variant == 1 {
+					vid = "odd-indent|"
+				}
+				recs = append(recs, map[string]any{"ev": "file", "id": fmt.Sprintf("gen|%s%s|%s", vid, compactLines(f), c.Key()), "cfg": c, "src": src, "out": outL})
 			}
-			sort.Strings(match)
-			k := string(sb) + "|" + string(ob) + "|" + strings.Join(match, ",")
-			if seen[k] {
-				continue
-			}
-			seen[k] = true
-			recs = append(recs, map[string]any{"ev": "file", "id": fmt.Sprintf("gen|%s|%s", compactLines(f), c.Key()), "cfg": c, "src": src, "out": outL})
 		}
 	}
 	r.Coverage["replays_real_directive_run"] = nReplay
